@@ -644,7 +644,8 @@ static void lp_err (
 
 	EGLPNUM_TYPENAME_ILLread_lp_state_skip_blanks (state, 0);
 	at = state->p - state->line;
-	vsnprintf (error_desc, sizeof (error_desc), format, args);
+	/* leave room for the newline that may be appended below */
+	vsnprintf (error_desc, sizeof (error_desc) - 1, format, args);
 	slen = strlen (error_desc);
 	if ((slen > 0) && error_desc[slen - 1] != '\n')
 	{
